@@ -369,6 +369,11 @@ def _fstr_constructor(loader, node):
         try:
             return FStrNode(value, *args, **kwargs)
         except ValueError:
+            # only the content was given, add "f" and quotes; use a kind of quotes which does not appear inside since
+            # escaped quotes cannot be used inside replacement fields, e.g.: {d['key']}
+            for quote in ["'", '"', "'''", '"""']:
+                if quote not in value and not value.endswith(quote[0]) and not value.endswith('\\'):
+                    return FStrNode('f' + quote + value + quote, *args, **kwargs)
             return FStrNode("f'" + value.replace(r"'", r"\'") + "'", *args, **kwargs)
 
     return _make_node(loader, node, node_type=_maybe_fix_fstr, parse_scalars=False)
